@@ -373,6 +373,25 @@ def design_driver(m, i, nshards, tier):
                 except Exception as e:
                     m.violation("options-honoured", f"{text} on a datetime64 column: {type(e).__name__}: {e}", case=case, key="raises")
 
+        decl = ["mid", "lo", "hi", "top"]
+        vals_o = [decl[j % 4] for j in rng.permutation(12)]
+        dfc = pd.DataFrame({"y": rng.normal(size=12), "oc": pd.Categorical(vals_o, categories=decl, ordered=True)})
+        rows_o = np.asarray(vals_o, dtype=object)
+        for text, kept in (("C(oc)", decl[1:]), ("0 + C(oc)", decl), ("oc", decl[1:]), ("T(oc)", decl[1:]), ("C(oc, Treatment('lo'))", [l for l in decl if l != "lo"])):
+            case = {"formula": "y ~ " + text, "levels": decl, "column": "oc", "option": "ordered-categorical-in-C"}
+            m.case(case, canon=[text, "ordered-in-C"], nontrivial=True)
+            m.ev("options-honoured")
+            try:
+                dmc = formulae.design_matrices("y ~ " + text, dfc)
+                name = text.replace("0 + ", "")
+                X = np.asarray(dmc.common[name], dtype=float)
+                want = np.column_stack([(rows_o == l).astype(float) for l in kept])
+                if X.shape != want.shape or not np.array_equal(X, want) or list(dmc.common.terms[name].labels) != [f"{name}[{l}]" for l in kept]:
+                    m.violation("options-honoured", f"{text} on an ordered categorical declared {decl}: the declared order is not respected "
+                                f"(labels {dmc.common.terms[name].labels})", case=case, key="ordered-categorical-in-C")
+            except Exception as e:
+                m.violation("options-honoured", f"{text}: {type(e).__name__}: {e}", case=case, key="raises")
+
         def ocut(v):
             return pd.Categorical(np.where(np.asarray(v) > 0, "hi", "lo"), categories=["never", "lo", "hi"], ordered=True)
 
